@@ -253,6 +253,18 @@ def tree_facts(repo: Path):
     i3 = lb.find("previous_supervisor.inner.tree.children.lock()")
     out.append("/-- `link_below`: `drop(current_supervisor); drop(new_children_guard)` precede the lock of the previous supervisor's set -/")
     out.append(f"def linkReleasesBeforeOldParent : Bool := {str(0 <= i1 < i2 < i3).lower()}")
+    # unlink: early return unless `supervisor` is the child's current supervisor, before anything is touched
+    ub = fn_body(sup, "unlink") or ""
+    m = re.search(r"if\s*!\s*current_supervisor\s*\.as_ref\(\)\s*\.is_some_and\(\|current\|\s*current\.get_id\(\)\s*==\s*supervisor\.get_id\(\)\)\s*\{\s*return;\s*\}", ub)
+    i_rm = ub.find(".remove(")
+    out.append("/-- `unlink`: `if !current_supervisor…is_some_and(|current| current.get_id() == supervisor.get_id()) { return; }` precedes the removal -/")
+    out.append(f"def unlinkOnlyCurrentSupervisor : Bool := {str(bool(m) and 0 <= m.end() <= i_rm).lower()}")
+    # cleanup: terminate() is called unconditionally (brace depth 0 of the function body, after the `armed` test)
+    cb = fn_body(actor, "cleanup", actor.find("impl ActorLifecycleGuard")) or ""
+    i_t = cb.find("self.actor.terminate()")
+    depth = cb[:i_t].count("{") - cb[:i_t].count("}") if i_t >= 0 else -1
+    out.append("/-- `ActorLifecycleGuard::cleanup`: `self.actor.terminate()` is not inside any `if` -/")
+    out.append(f"def cleanupTerminatesUnconditionally : Bool := {str(depth == 0).lower()}")
     tk = fn_body(sup, "take_children") or ""
     out.append("/-- `take_children`: the parent's `children` guard is never dropped explicitly (held to the end of the region) -/")
     out.append(f"def takeHoldsParentSet : Bool := {str('children.lock()' in tk and 'drop(children)' not in tk).lower()}")
